@@ -110,8 +110,10 @@ func MeasureClockOffsetSCION(ctx context.Context, log *slog.Logger,
 	sps := make([]snet.Path, len(ntpcs))
 	nsps := 0
 	for i, c := range ntpcs {
-		pf := c.InterleavedModePath()
-		if pf != "" {
+		// The fingerprint of the empty path (server in the local AS) is the
+		// empty string: it cannot stand for "not in interleaved mode".
+		if c.InInterleavedMode() {
+			pf := c.InterleavedModePath()
 			for j := range len(ps) {
 				if p := ps[j]; snet.Fingerprint(p).String() == pf {
 					ps[j] = ps[len(ps)-1]
